@@ -9,6 +9,7 @@ ROOT = os.path.dirname(os.path.dirname(os.path.abspath(__file__)))
 ALL = [f"C{i:02d}" for i in range(1, 30)]
 
 # pid -> dict(engine, technique, text, note, design_ref)
+BT = "Trusted: the mathematical definitions in UFLBuild.tla/CQ.tla; the evaluator vf/sem.py that reads the denotation of implementation-built objects (exercised against TLC's predictions on every program); environments with pairwise distinct small rationals; predictions that leave the exact rational range (|n|,d > 32000, irrational roots) are undefined and skipped (counted). Bounded: exhaustive within each slice's operator alphabet/levels, simulation beyond."
 CHECKS = {
     "C25": dict(
         engine="Sobolev",
@@ -16,6 +17,34 @@ CHECKS = {
         text="The intended inclusion relation is specified in TLA+; TLC checks the partial-order and operator-consistency laws on every triple of spaces (12 predefined + every directional space of dimension 1..3, orders 0..3 and inf) and emits the complete table; every operator (<,<=,>,>=,==,!=,in) of the real classes is compared with it on every ordered pair and the laws are re-checked on the real objects over all triples. The space is finite and enumerated completely, so this is exhaustive for the stated universe.",
         note="Trusted: the intended relation in Sobolev.tla (closure of the declared parent graph; D(o)=H^k when isotropic; H^max(o) <= D(o) <= H^min(o)); comparisons that sobolevspace.py declares unknown (directional vs HEin/HDivDiv/HCurlDiv) may raise NotImplementedError.",
         design_ref="DESIGN.md §3 C25",
+    ),
+    "C05": dict(
+        engine="UFLBuild",
+        technique="TLC enumeration of spec/UFLBuild.tla (the expression language as a state machine with predicted shape, free indices and exact value per constructed node) + replay of every enumerated program through ufl's public operators with comparison of all three observables",
+        text="Every reachable state of UFLBuild within a slice's bounds is a legal UFL program; the guards are the language's well-formedness rules and the predicted observables come from the mathematical definition of each operation (the spec knows nothing about ufl's node classes or simplifications). TLC enumerates the programs exhaustively per operator alphabet (arithmetic with zeros/ones/literals, indexing incl. slices and repeated indices over a reused index pool, as_tensor, list tensors, tensor algebra incl. 3D cross, complex conj/real/imag/abs, conditionals/min/max/sign, zero tensors with free indices) and by simulation for deep mixed programs; every program is executed through the public API and shape, free indices and value (2 environments, exact rationals) of the result are compared; refusals are accepted only where the prediction is undefined or ufl refuses by design.",
+        note=BT,
+        design_ref="DESIGN.md §3 C05",
+    ),
+    "C06": dict(
+        engine="UFLBuild",
+        technique="TLC enumeration of UFLBuild programs [operand makers, compound operators, lower] + replay through ufl.<operator> and apply_algebra_lowering / ufl.compound_expressions with exact entry-wise comparison; structural postcondition (no compound node left)",
+        text="Compound operators are specified from their mathematical definitions (Laplace determinants and cofactors up to 4x4, Gram-matrix pseudo-determinant/-inverse for m x n, conjugation conventions of inner/outer, dev/skew/sym/perp/cross); the action `lower` must return an object with the operand's shape, free indices and value and without compound nodes. TLC enumerates compound operators applied to terminals, sums, list tensors, indexed sub-tensors with free indices, transposes and other compound results (2x2, 3x3, 4x4, rectangular 2x1..4x3, one complex environment) and the expression builders determinant_expr/inverse_expr/adj_expr/cofactor_expr directly; every entry of every result is compared exactly.",
+        note=BT + " Pseudo-determinant environments are chosen so that det(A^T A) is a perfect square. Compound differential operators are covered with the derivative checks.",
+        design_ref="DESIGN.md §3 C06",
+    ),
+    "C10": dict(
+        engine="UFLBuild",
+        technique="TLC enumeration of index-notation programs of UFLBuild ending in the pass actions expand_indices / remove_ct / renumber + replay on the real passes with value, shape, free-index comparison and structural postconditions",
+        text="Index-notation programs (the same index names reused in different summation and tensor scopes, variables indexed at several components, zero tensors with free indices below conditionals and component tensors, nested component tensors, list tensors) are enumerated level by level by TLC; the passes are actions whose result has the operand's observables; each program is replayed and the object returned by the real pass is evaluated and compared; expand_indices must leave no free index or binder, renumber_indices must number indices from 0.",
+        note=BT + " expand_indices is applied to scalar expressions without free indices and renumber_indices to expressions without free indices (it renames them).",
+        design_ref="DESIGN.md §3 C10",
+    ),
+    "C24": dict(
+        engine="UFLBuild",
+        technique="TLC enumeration of UFLBuild programs ending in the action point_eval + replay: the real object is called as expr(x, mapping, component) and the returned number compared with the predicted value",
+        text="The specification's denotation is the oracle and ufl's own point evaluation is the system under test: for every enumerated program (arithmetic, index notation, list/component tensors, tensor algebra incl. 3x3, conditionals with tensor-valued branches, min/max/sign, complex conj/real/imag/abs, sqrt) the expression is called on a point with a mapping of terminal values for every component and environment.",
+        note=BT + " Terminals are mapped to constant values; derivatives of mapped callables are outside this check.",
+        design_ref="DESIGN.md §3 C24",
     ),
     "C13": dict(
         engine="EqShare",
